@@ -733,3 +733,45 @@ pub fn main(args: &Args) -> i32 {
         exec,
     )
 }
+
+
+// ---- used by C14: the same histories, returning the secrets involved and every error text
+pub fn exec_for_logs(case: &Case) -> (crate::needles::Needles, Vec<String>) {
+    let mut needles = crate::needles::Needles::default();
+    let mut texts = vec![];
+    let Ok(mut run) = Run::new(case) else { return (needles, texts) };
+    let mut excused = vec![];
+    for s in &case.steps {
+        if let Err(f) = run.step(s, Mode::Normal, &mut excused) {
+            texts.push(f.detail);
+            break;
+        }
+    }
+    for line in &run.trace {
+        if line.contains("Err(") {
+            texts.push(line.clone());
+        }
+    }
+    for a in [&run.alice, &run.carol, &run.dave, &run.mallory, &run.bob] {
+        for (gid, _) in groups_of(a) {
+            needles.add_bytes_with_debug_list(gid.as_slice(), "MLS group id");
+            if let Ok(Some(g)) = on_mdk!(&a.mdk, m => m.get_group(&gid)) {
+                needles.add_bytes_with_debug_list(&g.nostr_group_id, "Nostr group id");
+                for e in 0..=g.epoch {
+                    use mdk_storage_traits::groups::GroupStorage;
+                    use openmls_traits::OpenMlsProvider;
+                    if let Ok(Some(s)) = on_mdk!(&a.mdk, m => m.provider.storage().get_group_exporter_secret(&gid, e)) {
+                        needles.add_bytes_with_debug_list(s.secret.as_ref(), "exporter secret");
+                    }
+                }
+            }
+        }
+    }
+    (needles, texts)
+}
+
+pub fn strategy_for_logs() -> BoxedStrategy<Case> {
+    (any::<bool>(), any::<bool>(), prop::collection::vec(step_strategy(), 6..25))
+        .prop_map(|(bob_sql, bob_in_h, steps)| Case { bob_sql, bob_in_h, steps })
+        .boxed()
+}
